@@ -756,6 +756,7 @@ impl Sut for Orswot<u64, A> {
         t.call("orswot.validate_merge", &[sx(self), sx(o), vm_sx(self.validate_merge(o))]);
         t.call("orswot.validate_merge", &[sx(o), sx(self), vm_sx(o.validate_merge(self))]);
         serde_rt("orswot", self, t);
+        serde_rt("orswot", &r1, t);
     }
     fn sx(&self) -> String {
         sx(self)
@@ -851,6 +852,8 @@ impl Sut for MVReg<u64, A> {
             }],
         );
         serde_rt("mvreg", self, t);
+        // a register as it looks inside a Map after a partial key remove (value clocks trimmed, possibly ordered)
+        serde_rt("mvreg", &r1, t);
     }
     fn sx(&self) -> String {
         sx(self)
@@ -1006,6 +1009,7 @@ macro_rules! map_sut {
                 t.call(concat!($name, ".validate_merge"), &[sx(self), sx(o), vm_sx(self.validate_merge(o))]);
                 t.call(concat!($name, ".validate_merge"), &[sx(o), sx(self), vm_sx(o.validate_merge(self))]);
                 serde_rt($name, self, t);
+                serde_rt($name, &r1, t);
             }
             fn sx(&self) -> String {
                 sx(self)
